@@ -23,6 +23,7 @@ STUB = ["cp_model.CpSolver -> pinned subclass (num_workers=1, random_seed, optio
 ASSUMPTIONS = ["the search inside CP-SAT is not simulated", "semi-active schedules contain an optimal one (reference optimum by exhaustive memoised search over dispatch orders)"]
 STATE_MEASURE = "distinct (instance hash, limit configuration, position in the solver's history) tuples"
 
+BENCH = ["ft06", "la01", "la02", "la03", "la04", "la05"]
 RULES = ["shortest_processing_time", "first_come_first_served", "most_work_remaining", "most_operations_remaining"]
 
 
@@ -52,6 +53,9 @@ def generate(seed, tier):
     # deliberately large-then-small so that leftovers would show
     if rng.random() < 0.5:
         ops.sort(key=lambda o: -n_ops(o[1]))
+    if tier == "thorough" and rng.random() < 0.004:
+        # a recorded benchmark instance somewhere in the history (bounds from benchmark_instances.json)
+        ops.insert(rng.randint(0, len(ops)), ["solve", {"benchmark": rng.choice(BENCH)}, "call" if rng.random() < 0.5 else "solve", None, None])
     return {"prop": PROP, "cfg": {"solver_seed": rng.randrange(1 << 30), "clock_seed": rng.randrange(1 << 30)}, "ops": ops}
 
 
@@ -71,9 +75,20 @@ def execute(case, ctx):
     solver = ORToolsSolver()
     for i, (_, spec, form, lim, det) in enumerate(case["ops"]):
         ctx.step = i
-        jobs = as_tuple(spec)
-        n = n_ops(spec)
-        inst = build(spec)
+        bench = spec.get("benchmark") if isinstance(spec, dict) else None
+        if bench:
+            from job_shop_lib.benchmarking import load_benchmark_instance
+
+            inst = load_benchmark_instance(bench)
+            jobs = tuple(tuple((tuple(op.machines), op.duration) for op in job) for job in inst.jobs)
+            n = inst.num_operations
+            spec = {"jobs": [[[list(ms), d] for ms, d in job] for job in jobs], "name": bench}
+            bench_meta = dict(inst.metadata)
+            ctx.probe("benchmark_instance_solved")
+        else:
+            jobs = as_tuple(spec)
+            n = n_ops(spec)
+            inst = build(spec)
         statuses = []
         limited = lim is not None and lim < 1 or det is not None
         if lim is not None and lim < 1:
@@ -82,6 +97,7 @@ def execute(case, ctx):
             ctx.fault("solver_time_budget")
         solver.max_time_in_seconds = lim
         ctx.states.add(h64((h64(spec["jobs"]), lim, det, i)))
+        bench_spec = spec
         with patched(cp_model, "CpSolver", cpsat_factory(cfg["solver_seed"], det, statuses)), patched(osm, "time", clock):
             try:
                 sched = run_solver(solver, inst, form)
@@ -100,7 +116,7 @@ def execute(case, ctx):
         ctx.count("solve")
         raw = statuses[-1] if statuses else None
         ctx.event(i, "solve", n, form, lim, det, raw, type(err).__name__ if err else sched.metadata.get("status"))
-        what = f"solve #{i + 1} ({form}, max_time={lim}, det_budget={det}) on {spec['jobs']}"
+        what = f"solve #{i + 1} ({form}, max_time={lim}, det_budget={det}) on {bench or spec['jobs']}"
         if err is not None:
             if isinstance(err, NoSolutionFoundError):
                 ctx.check(limited, "no_solution_only_under_time_limit", lambda: f"{what}: NoSolutionFoundError although no limit was in force (raw CP-SAT status {raw})")
@@ -123,8 +139,12 @@ def execute(case, ctx):
         ctx.check(md.get("solved_by") == "ORToolsSolver", "metadata_fields", lambda: f"{what}: solved_by {md.get('solved_by')!r}", field="solved_by")
         ctx.check(isinstance(md.get("elapsed_time"), float) and md["elapsed_time"] >= 0, "metadata_fields", lambda: f"{what}: elapsed_time {md.get('elapsed_time')!r}", field="elapsed_time")
         ctx.check((md.get("status") == "optimal") == (raw == int(cp_model.OPTIMAL)), "metadata_fields", lambda: f"{what}: status {md.get('status')!r} but raw CP-SAT status {raw}", field="status_vs_raw")
-        opt = opt_makespan(jobs)
-        lb = lower_bounds(jobs)
+        opt = bench_meta["optimum"] if bench else opt_makespan(jobs)
+        lb = max(lower_bounds(jobs), bench_meta["lower_bound"]) if bench else lower_bounds(jobs)
+        if bench:
+            ctx.check(bench_meta["lower_bound"] <= mk, "never_below_lower_bound", lambda: f"{what}: makespan {mk} below the recorded lower bound {bench_meta['lower_bound']} of {bench}")
+            if md.get("status") == "optimal":
+                ctx.check(mk <= bench_meta["upper_bound"], "optimal_means_optimal", lambda: f"{what}: optimal makespan {mk} above the recorded upper bound {bench_meta['upper_bound']} of {bench}")
         ctx.check(mk >= opt and mk >= lb, "never_below_lower_bound", lambda: f"{what}: makespan {mk} below optimum {opt} / lower bound {lb}")
         if md.get("status") == "optimal" or not limited:
             ctx.check(mk == opt, "optimal_means_optimal", lambda: f"{what}: status {md.get('status')} with makespan {mk}, independent optimum {opt}")
@@ -154,6 +174,8 @@ def nontrivial(case, ctx):
 
 def simplify(case):
     for i, op in enumerate(case["ops"]):
+        if "benchmark" in op[1]:
+            continue
         for spec in shrink_candidates(op[1]):
             yield {**case, "ops": case["ops"][:i] + [[op[0], spec] + op[2:]] + case["ops"][i + 1:]}
         if op[3] is not None or op[4] is not None:
